@@ -59,6 +59,8 @@ type Ctx struct {
 	known        []KnownFinding
 	extra        map[string]any
 	maxSamples   int
+	collect      bool
+	collected    []Collected
 }
 
 // New creates the context from the environment.
@@ -80,6 +82,28 @@ func New(id, tier, level string) *Ctx {
 		}
 	}
 	return c
+}
+
+// Collected is a violation recorded by a collector context (used inside child processes; the parent
+// re-raises it through its own context).
+type Collected struct {
+	Sig  string `json:"sig"`
+	What string `json:"what"`
+}
+
+// NewCollector returns a context that only collects violations (no known-findings matching, no
+// printing, no replay files, no evidence).
+func NewCollector(id string) *Ctx {
+	return &Ctx{ID: id, Tier: "quick", Seed: 1, collect: true, start: time.Now(),
+		unknownSigs: map[string]int{}, knownHits: map[string]int{}, counters: map[string]int64{},
+		distinct: map[string]struct{}{}, extra: map[string]any{}, maxSamples: 6}
+}
+
+// Collected returns what a collector context recorded.
+func (c *Ctx) Collected() []Collected {
+	c.mu.Lock()
+	defer c.mu.Unlock()
+	return append([]Collected(nil), c.collected...)
 }
 
 // Thorough reports the tier.
@@ -157,6 +181,12 @@ func (c *Ctx) Inconclusive(reason string) {
 func (c *Ctx) Violation(sig, what string, witness any) {
 	c.mu.Lock()
 	defer c.mu.Unlock()
+	if c.collect {
+		if len(c.collected) < 20 {
+			c.collected = append(c.collected, Collected{Sig: sig, What: what})
+		}
+		return
+	}
 	for _, k := range c.known {
 		if k.Property == c.ID && k.Status == "known" && k.Signature == sig {
 			if c.knownHits[sig] == 0 {
